@@ -505,6 +505,7 @@ class Function:
         self.ret = None
         self.locals = {}          # local -> type string
         self.debug = {}           # local -> source name
+        self.upvar_names = {}     # coroutine/closure upvar index -> source name
         self.blocks = {}          # bb -> (stmts, term)
         self.cleanup = set()
 
@@ -552,6 +553,9 @@ class Function:
                     mm = re.match(r'_(\d+)$', m.group(2))
                     if mm:
                         self.debug[int(mm.group(1))] = m.group(1)
+                    mu = re.match(r'\(\(\*_\d+\)\.(\d+): ', m.group(2))
+                    if mu:
+                        self.upvar_names[int(mu.group(1))] = m.group(1)
                     continue
                 m = re.match(r'bb(\d+)( \(cleanup\))?: \{$', s)
                 if m:
